@@ -272,7 +272,7 @@ func (c *panicClient) dischargeIndex(e *Engine, st *State, base, idx ast.Expr) (
 	ki, kb := e.CanonSt(st, idx), e.CanonSt(st, base)
 	if ki.OK && kb.OK {
 		if f := st.Get("(" + ki.Key + " < len(" + kb.Key + "))"); f != nil && f.HasEq && f.Eq == "true" {
-			if sel, ok := ast.Unparen(idx).(*ast.SelectorExpr); ok && sel.Sel.Name == "pos" {
+			if sel, ok := ast.Unparen(idx).(*ast.SelectorExpr); ok && selName(sel) == "pos" {
 				return true, "I-pos: cursor position known to be below the length (cursor positions are never negative)"
 			}
 		}
